@@ -70,8 +70,10 @@ FinishCiq ==
          f8 == Add(f7, fin.noshift # NA => fin.noshift <= thr, "unshifted-solve")
          \* M : b |-> weighted sum of the shifted solves satisfies M M^T = K^-1 (with or without a preconditioner)
          f9 == Add(f8, fin.gram # NA => fin.gram <= thr + 1000, "quadrature-root-gram-is-not-the-inverse")
-     IN /\ fails' = f9
-        /\ PrintT(ToJson([tid |-> Tr.tid, fails |-> f9, drift |-> FALSE]))
+         \* the same for the forward quadrature: b |-> weighted sum of K (shifted solves) satisfies M M^T = K (with or without a preconditioner)
+         f10 == Add(f9, fin.gramsqrt # NA => fin.gramsqrt <= thr + 1000, "forward-quadrature-root-gram-is-not-the-matrix")
+     IN /\ fails' = f10
+        /\ PrintT(ToJson([tid |-> Tr.tid, fails |-> f10, drift |-> FALSE]))
   /\ l' = 1 /\ UNCHANGED <<tid, prev>>
 
 Next == Step \/ FinishMinres \/ FinishCiq
